@@ -136,6 +136,7 @@ HIGHER_ORDER = {'itertools.takewhile', 'itertools.dropwhile', 'itertools.accumul
 
 
 _IS_GENERATOR: dict = {}
+_MINI_ONLY = {ast.UnaryOp, ast.BoolOp, ast.IfExp, ast.Compare}
 _UNPARSED: dict = {}
 
 
@@ -270,10 +271,16 @@ class Interp(MiniEval):
         raise KeyError(name)
 
     def ev(self, e):
-        self.shared['steps'] += 1
-        if self.shared['steps'] > self.MAX_STEPS:
+        t = type(e)
+        if t is ast.Constant:
+            return e.value
+        sh = self.shared
+        sh['steps'] += 1
+        if sh['steps'] > self.MAX_STEPS:
             raise Unsupported('step budget exceeded')
-        if isinstance(e, ast.Name):
+        if t in _MINI_ONLY:
+            return miniev.MiniEval.ev(self, e)       # node kinds this class adds nothing to
+        if t is ast.Name:
             if e.id in self.env:
                 return self.env[e.id]
             if e.id in self.stubs:
@@ -451,7 +458,7 @@ class Interp(MiniEval):
                 hook = self.stubs[f're.Pattern.{attr}']
                 return lambda *a, **kw: hook(base, *a, **kw)
             if base.has('__isa__') and 're.Pattern' in base.get('__isa__') and self.shared.get('regex_engine') \
-                    and attr in ('match', 'search', 'fullmatch', 'finditer', 'sub'):
+                    and attr in ('match', 'search', 'fullmatch', 'finditer', 'sub', 'findall', 'split'):
                 # ... or asks for the analyser's own matcher over the regex source (sa.rematch), on short abstract strings
                 from . import rematch
                 key = ('rematch', base.get('pattern'), int(base.get('flags') or 0))
@@ -496,6 +503,37 @@ class Interp(MiniEval):
                             if isinstance(v, (Closure, PkgFunc)) and not (isinstance(v, PkgFunc) and v.bound is not None):
                                 return Partial(v, [base], {})
                             return v
+            if cq and attr in ('get', 'items', 'keys', 'values', '__contains__'):
+                # mixin methods of collections.abc.Mapping, for a package class that defines __getitem__ and __iter__
+                gi, it_ = self.dunder(base, '__getitem__'), self.dunder(base, '__iter__')
+                cnode_ = None
+                for c in self.src.mro(cq):
+                    mn, _, cn = c.partition('.')
+                    if mn in self.src.mods and cn in self.src.mods[mn].classes:
+                        cnode_ = cnode_ or self.src.mods[mn].classes[cn]
+                        if any(ast.unparse(b).split('.')[-1].split('[')[0] in ('Mapping', 'MutableMapping') for b in self.src.mods[mn].classes[cn].bases):
+                            break
+                else:
+                    gi = None
+                if gi is not None and it_ is not None:
+                    def lookup(k, default=None, _gi=gi):
+                        try:
+                            return self.apply(_gi, [k], {})
+                        except Raised as x:
+                            if x.exc_name == 'KeyError':
+                                return default
+                            raise
+                    keys = lambda: list(self.apply(it_, [], {}))       # noqa: E731
+                    if attr == 'get':
+                        return lookup
+                    if attr == 'keys':
+                        return keys
+                    if attr == 'values':
+                        return lambda: [self.apply(gi, [k], {}) for k in keys()]
+                    if attr == 'items':
+                        return lambda: [(k, self.apply(gi, [k], {})) for k in keys()]
+                    if attr == '__contains__':
+                        return lambda k: k in keys()
             raise Unsupported(f'attribute {attr} of {base!r}')
         if isinstance(base, PkgClass):
             mq = self.src.find_method(base.qual, attr)
@@ -1075,6 +1113,9 @@ class Interp(MiniEval):
                 f = self.dunder(b, '__contains__')
                 if f is not None:
                     r = bool(self.apply(f, [a], {}))
+                    return r if isinstance(op, ast.In) else not r
+                if self.dunder(b, '__iter__') is not None:
+                    r = any((a is x) or (not isinstance(a, (Obj, Sym)) and not isinstance(x, (Obj, Sym)) and a == x) for x in self.iterate(b))
                     return r if isinstance(op, ast.In) else not r
             raise Unsupported('ordering of abstract objects')
         return super().cmp(op, a, b)
